@@ -15,6 +15,7 @@ import Mahotas.Proofs.C15Idem
 import Mahotas.Proofs.C15Hull
 import Mahotas.Proofs.C15Graham
 import Mahotas.Proofs.C15Euler
+import Mahotas.Proofs.C15Cell
 open Mahotas Mahotas.C15
 
 /-- **thin ⊆ input.** Every pixel set in the model of `mahotas.thin` (crop to the bounding box, zero
@@ -328,3 +329,24 @@ example (c : Bool) :
   · intro y x
     simp only [Bin.get_tabulate, Bool.and_eq_true, decide_eq_true_eq]
     omega
+
+/-- **The bit-quad sum is four times the Euler characteristic `V − E + F` of a cell complex** — for every image
+and both conventions, about `eulerModel4` itself. `F = pixelsN` counts the set pixels; for 8-connectivity
+(`conn8 = true`, closed unit squares) `E = edgesN` counts the unit edges and `V = verticesN` the lattice vertices
+adjacent to *some* set pixel; for 4-connectivity an edge (vertex) counts iff *both* (all four) adjacent pixels are set
+(`cop`), all read with background outside the image. The identity is local double counting (every pixel lies in four
+2×2 windows, every edge in two, every vertex in one; `grayQuad_cells` checks Gray's weights against
+`4·[vertex] − 2·[edges] + [pixels]` for all 32 cases). Gray's identity `euler = components − holes` is thereby
+reduced to the Euler–Poincaré formula `V − E + F = b₀ − b₁` for this planar complex, which is **not** proved
+(validated exhaustively on small images and randomly). -/
+theorem C15_euler_cell_complex (b : Bin) (conn8 : Bool) :
+    eulerModel4 b conn8 = 4 * (verticesN conn8 b - edgesN conn8 b + pixelsN b) :=
+  eulerModel4_eq_cells b conn8
+
+/-- one pixel: 4 vertices, 4 edges, 1 face (8-conn.) / 0 vertices, 0 edges, 1 pixel (4-conn.);
+    a diagonal pair: 7 − 8 + 2 = 1 (8-conn.) and 0 − 0 + 2 = 2 (4-conn.) -/
+example : verticesN true (Bin.ofInts 1 1 [1]) = 4 ∧ edgesN true (Bin.ofInts 1 1 [1]) = 4 ∧
+    pixelsN (Bin.ofInts 1 1 [1]) = 1 ∧ verticesN false (Bin.ofInts 1 1 [1]) = 0 ∧
+    verticesN true (Bin.ofInts 2 2 [1, 0, 0, 1]) = 7 ∧ edgesN true (Bin.ofInts 2 2 [1, 0, 0, 1]) = 8 ∧
+    edgesN false (Bin.ofInts 2 2 [1, 0, 0, 1]) = 0 := by
+  decide +kernel
